@@ -84,6 +84,9 @@ func Gen(seed uint64, tier string) any {
 	if core.Chance(r, 5) {
 		sc.Key = 14 // the key whose key tag is 0
 	}
+	if core.Chance(r, 4) {
+		sc.Key = 15 // RSASHA1-NSEC3-SHA1
+	}
 	if core.Chance(r, 8) {
 		sc.Parallel = 2 + r.IntN(3)
 	}
